@@ -116,7 +116,7 @@ PROPS = {
              "model's keys and element lists (a zero-field or reduced-size template may be held or not). Exhaustive: all 15^4 (quick) / 15^5 (thorough) words over 3 keys; plus random histories of "
              "length 6..40 over 2 domains x 4 ids in all 3 modes, with 6 layouts including a pair of the same shape that differs only in the "
              "enterprise number, and (lenient modes) the same unknown element announced with a different length in every layout; delivered "
-             "field names must be those of the template in force. Non-trivial = a data set after >= 2 template-affecting ops on related keys. ALSO: The bad-template symbol has a fourth, gray variant (a variable-length registry element announced with a fixed length): its own key is then not judged, every other key sharing the element is. Acceptance is three-valued (must / must not / free: non-zero leftover bytes, gray and opaque keys).",
+             "field names must be those of the template in force. Non-trivial = a data set after >= 2 template-affecting ops on related keys. ALSO: The bad-template symbol has a fourth, gray variant (a variable-length registry element announced with a fixed length): its own key is then not judged, every other key sharing the element is. Acceptance is three-valued (must / must not / free: non-zero leftover bytes, gray and opaque keys). Export times of the messages vary with their content and are not monotonic (a replacement may carry an earlier export time than what it replaces).",
              COMMON_ASSUME + ["a template set cut inside its 4-byte (id, count) header is not generated (gray zone)"],
              "runtime monitor: reference template-table model + table snapshot comparison after every message; bounded-exhaustive + random histories"),
     "C17": P(True, (8, 16), 16, (1200, 5400), 20000, 10000, "exploration",
@@ -152,7 +152,7 @@ PROPS = {
              "each matching refipfix's reading; after that frame the collector must close the connection (client sees EOF/RST) and deliver "
              "nothing more; a long-lived healthy connection sending a message every 0.5 ms for the whole batch must lose and reorder nothing. "
              "Exhaustive: every single and double cut point of short streams (seed-independent); random: 0..20 cuts, 1-byte-at-a-time, "
-             "all-in-one. Non-trivial = >= 1 cut strictly inside a message; distinct by (stream, cut set). ALSO: A seventh kind of invalid message is an undecodable data record for the (domain, template) the long-lived healthy connection works with: that connection must not be closed and must lose nothing.",
+             "all-in-one. Non-trivial = >= 1 cut strictly inside a message; distinct by (stream, cut set). ALSO: A seventh kind of invalid message is an undecodable data record for the (domain, template) the long-lived healthy connection works with: that connection must not be closed and must lose nothing. An eighth kind is a runt: a message complete by its own length field (0..15) and shorter than a header, as the last bytes of a stream whose client stays connected; the connection must be closed.",
              COMMON_ASSUME + ["the kernel may coalesce chunks despite TCP_NODELAY and pauses: the segmentation written is recorded, the one the collector's reads saw is not observable without a hook",
                               "'connection closed' is decided with a 15 s wall-clock bound (normal: < 1 ms)"],
              "runtime monitor: own framer + reference decoder over real TCP connections with controlled segmentation; race detector"),
@@ -197,7 +197,7 @@ PROPS = {
              "fail. close: CloseConnToCollector from 1..8 goroutines twice each while the application goroutine sends: returns (30 s bound), "
              "SendSet after it fails, peer stream == acknowledged sends (+ at most one failed send or a prefix of it), well-formed datagrams. "
              "At the end no goroutine with a pkg/exporter frame may remain. Non-trivial = application data fell between two datagrams of one "
-             "refresh round / close noticed / a Close raced acknowledged sends. ALSO: A quarter of the refresh sessions keep announcing new templates every 0.3-0.7 s: the templates of the start must still be refreshed.",
+             "refresh round / close noticed / a Close raced acknowledged sends. ALSO: A quarter of the refresh sessions keep announcing new templates every 0.3-0.7 s: the templates of the start must still be refreshed. One backpressure session in 16 stalls for 6.5 s (beyond any send timeout): there sends may fail and the application goes on sending; what reaches the peer must be whole application messages in order, every successful send among them, a partial message only as the last thing ever written.",
              COMMON_ASSUME + [ONE_MSG] + ["rounds are recognised structurally (a template id repeating starts a new round), not by wall-clock gaps",
                               "loss of a datagram on loopback makes a refresh session inconclusive"],
              "runtime monitor: per-datagram parser + refresh-round model + prefix-of-acknowledged-sends model at a raw peer; goroutine leak probe; race detector"),
@@ -257,7 +257,7 @@ PROPS = {
              "flow twice in one scan, exports <= deadlines passed, both slots of a single-stream flow equal. pool: Start with 1..16 workers "
              "fed 50..450 inter-node flows (one source and one destination record each, shuffled) through the channel, Stop, then key set, "
              "correlation, delta sums, merged names and end time compared with the sequential result. Non-trivial = >= 2 operations "
-             "overlapping in time on one key (lin) / exports happened (stress) / run completed (pool); distinct by the (call, return) order. ALSO: Half of the lin histories have a goroutine holding the process lock (read-only walk with a slow callback) and one polling GetNumFlows. The sequential specification is nondeterministic and about thread-safety only (sums exact, only existing and ready flows exported, never twice at one virtual instant, existence consistent, removal only by a scan). Half of the lin histories and one producer step in 40 of the stress runs feed records without addresses (refused, no effect).",
+             "overlapping in time on one key (lin) / exports happened (stress) / run completed (pool); distinct by the (call, return) order. ALSO: Half of the lin histories have a goroutine holding the process lock (read-only walk with a slow callback) and one polling GetNumFlows. The sequential specification is nondeterministic and about thread-safety only (sums exact, only existing and ready flows exported, never twice at one virtual instant, existence consistent, removal only by a scan). Half of the lin histories and one producer step in 40 of the stress runs feed records without addresses (refused, no effect). Every GetRecords result of a lin history is retained and read again before the goroutine's next operation (concurrently with the others: race detector) and after the history: it must not have changed (query-result-changed-later); source-node records carry a service address that the destination node's records lack.",
              COMMON_ASSUME + ["each (flow, node) stream has one producer: the aggregation contract (per-node end times increase) must hold in every linearization",
                               "porcupine Unknown (60 s timeout) is inconclusive"],
              "porcupine linearizability check of recorded histories against a sequential model + conservation checker at quiescence; race detector; GOMAXPROCS sweep"),
@@ -271,7 +271,7 @@ PROPS = {
              "from flow.proto's numbering, the record's values and the message's export time / sequence number / observation domain / "
              "exporter address (proto3: zero values absent, nothing duplicated, nothing extra); the consumer-side DecodeAndPrintMsg "
              "(delimited mode, the schema cmd/consumer uses) must accept it and recover the same values. Non-trivial = a multi-record "
-             "message or a template between data messages; distinct by stream. ALSO: One data message in 25 carries 60..460 records.",
+             "message or a template between data messages; distinct by stream. ALSO: One data message in 25 carries 60..460 records. The consumer-side decoder is one long-lived consumer per topic (replaced every 200 payloads): every payload must be recovered on its own whatever was decoded before.",
              COMMON_ASSUME + ["string values are valid UTF-8 (RFC 7012 string; proto3 refuses anything else)"],
              "runtime monitor: recording AsyncProducer + independent protowire field parser + consumer-side decoder; race detector"),
     "C20": P(True, (8, 16), 16, (1500, 7200), 30, 6, "exploration",
@@ -284,7 +284,7 @@ PROPS = {
              "template messages through a header line if the rendering has one and otherwise by position -, in the right format; every invalid request must get a 4xx; reset must empty the store; every returned entry "
              "must show every field of every record by element name and value. One history in 13 makes 17000-19000 arrivals (cap exceeded "
              "4x); one in 13 is concurrent (writer + 4 readers + resetter under the race detector: contiguous ascending id ranges, no more "
-             "than count, nothing from the future). Non-trivial = exceeds the cap or has a reset between queries; distinct by history. One string value in three carries a character special to some rendering layer (printf verbs, JSON/HTML escaping, quotes, multi-byte runes).",
+             "than count, nothing from the future). Non-trivial = exceeds the cap or has a reset between queries; distinct by history. One string value in three carries a character special to some rendering layer (printf verbs, JSON/HTML escaping, quotes, multi-byte runes). One message in three repeats an information element within its records; each occurrence must be shown with its own value.",
              COMMON_ASSUME + ["an octetArray value may be rendered as a decimal list, hex (with or without 0x), base64 or raw bytes"],
              "runtime monitor: in-package recorder (go -overlay) + offline sliding-window model over unique message ids; race detector",
              extra_build=_c20_build),
@@ -301,7 +301,7 @@ PROPS = {
              "validity failures and DNS ServerName mismatches judged; wrong/no SAN with an empty ServerName recorded but not judged. "
              "Negative cells must not establish a session / deliver; positive cells must establish one and deliver. The quick tier runs "
              "every cell on IPv4; thorough adds IPv6, 3 rounds of fresh certificates and the DTLS-exporter-vs-plaintext-peer cell. Every "
-             "cell is non-trivial; distinct by cell. ALSO: Two more server-certificate kinds lie three minutes outside their validity period (issued when the cell runs). Cells where the exporter holds an expired / foreign certificate of its own and the collector asks for none are run but not judged.",
+             "cell is non-trivial; distinct by cell. ALSO: Two more server-certificate kinds lie three minutes outside their validity period (issued when the cell runs). Cells where the exporter holds an expired / foreign certificate of its own and the collector asks for none are run but not judged. Two cells address the collector by host name (localhost:<port>) with no ServerName: a certificate naming only the loopback IP / collector.test must be refused, one naming localhost must work.",
              COMMON_ASSUME + ["'not delivered' is observed for 600 ms after the send attempt (normal delivery: < 5 ms)",
                               "pion/dtls skips name verification when ServerName is empty or an IP literal: those DTLS cells are recorded, not judged",
                               "crypto/tls and pion/dtls are trusted as documented"],
